@@ -74,6 +74,10 @@ async fn write_best_seen_file(
         .write_all(value.to_string().as_bytes())
         .await?;
 
+    // `write_all` returns once the bytes are handed to a background write; wait for it, so that the next
+    // best-seen value cannot be written before (and then be overwritten by) this one
+    best_seen_file.flush().await?;
+
     Ok(())
 }
 
